@@ -323,6 +323,52 @@ func H_TokNumbers() {
 	}
 }
 
+// hTokensNamed is hTokens with a name prefix (two instances in one harness).
+func hTokensNamed(prefix string, n int, withError bool) []int {
+	toks := make([]int, n)
+	for i := range toks {
+		t := vrt.Int(vrt.Name(prefix, i))
+		ok := false
+		for _, k := range hTokKinds {
+			ok = vrt.Or(ok, t == k)
+		}
+		if withError {
+			ok = vrt.Or(ok, t == ERROR)
+		}
+		vrt.Assume(ok)
+		toks[i] = t
+	}
+	return toks
+}
+
+// H_Twin (C18): two parser instances of this grammar share no mutable state:
+// disjoint memory footprints, no writes to package-level state (under symgo);
+// natively the two run on two goroutines (replayed with -race).
+func H_Twin() {
+	n := vrt.Param("n", 3)
+	ta := hTokensNamed("a", n, true)
+	// the second instance runs on a fixed input (both symbolic would square
+	// the number of paths); its footprint is what matters
+	tb := make([]int, n)
+	for i := range tb {
+		tb[i] = hTokKinds[i%len(hTokKinds)]
+	}
+	pa, pb := &parser{}, &parser{}
+	la, lb := &hLexer{toks: ta}, &hLexer{toks: tb}
+	var oka, okb bool
+	vrt.Twin(func() { oka = pa.parse(la) }, func() { okb = pb.parse(lb) })
+	vrt.Assert(vrt.MonitorShared() == 0, "instances-share-no-mutable-state")
+	vrt.Assert(vrt.MonitorGlobalWrites() == 0, "no-writes-to-package-level-state")
+	// same results as running one after another: a fresh third instance fed
+	// instance a's input gives instance a's verdict
+	pc := &parser{}
+	okc := pc.parse(&hLexer{toks: ta})
+	vrt.Assert(okc == oka, "same-result-as-sequential")
+	vrt.Assert(len(pc.Log) == len(pa.Log), "same-actions-as-sequential")
+	_ = okb
+	vrt.Reach("twin")
+}
+
 // H_Prec (C05): the grouping equals that of a precedence-climbing parser.
 func H_Prec() {
 	n := vrt.Param("n", 3)
